@@ -140,3 +140,39 @@ func verifC07ExpireReach() {
 	verifObserve("expire", nowOff, e)
 	verifAssert(!e, "reach")
 }
+
+// C07 (a message that cannot be applied is skipped without acknowledging entries before it): the real
+// replicator.IgnoreMessage on a real log with the replicator's group in an arbitrary state
+// acknowledged <= consumed <= appended. The acknowledged position is what the family stored durably
+// with its last flush; entries between it and the ignored message are applied to memory only, so the
+// acknowledgement may move onto the ignored message only when that message directly follows it.
+func verifC07IgnoreMessage() {
+	verifInstallFS()
+	log, err := queue.NewFanOutQueue(verifDir("wal"), 0)
+	if err != nil {
+		panic(err)
+	}
+	appended := int64(verifChoose("appended", 5)) - 1 // -1..3
+	verifFill(log, 0, appended+1, 'm')
+	g, _ := log.GetOrCreateConsumerGroup("1")
+	consumed := int64(verifChoose("consumed", int(appended)+2)) - 1
+	acked := int64(verifChoose("acked", int(consumed)+2)) - 1
+	g.SetConsumedSeq(consumed)
+	g.Ack(acked)
+	acked = g.AcknowledgedSeq()
+	r := &replicator{channel: &ReplicatorChannel{State: &models.ReplicaState{Database: "db", Leader: 1, Follower: 1}, ConsumerGroup: g}}
+	// the message that cannot be applied is one that was consumed (handed to the replicator)
+	idx := int64(verifChoose("ignoredMessage", int(consumed)+2)) - 1
+	verifAssume(idx >= 0 && idx <= consumed)
+	r.IgnoreMessage(idx)
+	after := g.AcknowledgedSeq()
+	verifAssert(after == acked || after == idx, "ignoring a message leaves the acknowledged position or moves it onto that message")
+	if after != acked {
+		verifAssert(idx == acked+1, "the acknowledged position moves onto an ignored message only when no unacknowledged entry lies before it")
+	}
+	if idx == acked+1 {
+		verifAssert(after == idx, "an ignored message right behind the acknowledged position is acknowledged (the log does not get stuck)")
+	}
+	verifAssert(g.ConsumedSeq() == consumed, "ignoring a message does not move the consumed position")
+	verifReach("end")
+}
